@@ -339,6 +339,13 @@ func c14Schemas(thorough bool) (*SPkg, []*Schema) {
 		t.p.Files = 2
 		return nil
 	})
+	for _, nm := range []string{"_", "init"} {
+		nm := nm
+		mut("definition named "+nm+" (an identifier that cannot be declared as a Go type)", "", "either", func(t *c14tmpl) []*SPkg {
+			t.p.Defs = append(t.p.Defs, &SDef{Name: nm, Type: "message", Pkg: t.p, Fields: []SField{{Name: "z", Tag: 1, Kind: "bool"}}})
+			return nil
+		})
+	}
 	mut("user message named like a generated client type", "", "either", func(t *c14tmpl) []*SPkg {
 		t.p.Defs = append(t.p.Defs, &SDef{Name: "SvcClient", Type: "message", Pkg: t.p, Fields: []SField{{Name: "z", Tag: 1, Kind: "bool"}}})
 		return nil
